@@ -20,6 +20,13 @@ def draw(m, meta, trials=500):
             self.sz = size
         def _get_render_size_(self):
             return self.sz
+        def _get_render_data_(self, *, iteration):
+            rd = super()._get_render_data_(iteration=iteration)
+            # the renderable's size changes right after draw() has taken its snapshot (a resize handler, another thread): the draw
+            # in progress has to go on with the snapshot
+            if getattr(self, "resize_to", None):
+                self.sz, self.resize_to = self.resize_to, None
+            return rd
         def _render_(self, rd, ra):
             d = rd[Renderable]
             w, h = d.size
@@ -39,7 +46,10 @@ def draw(m, meta, trials=500):
         old = sys.stdout
         sys.stdout = buf
         try:
-            Foo(nfr, Size(w, h)).draw(padding=pad, loops=loops, cache=rng.choice([True, False]))
+            foo = Foo(nfr, Size(w, h))
+            if t % 3 == 2:
+                foo.resize_to = Size(rng.randint(1, 6), rng.randint(1, 4))
+            foo.draw(padding=pad, loops=loops, cache=rng.choice([True, False]))
         finally:
             sys.stdout = old
         out = buf.getvalue()
